@@ -396,7 +396,11 @@ const fixedNow = "1700000000"
 func (sb *Sandbox) Run(bin string, extraEnv []string, args ...string) *Result {
 	ctx, cancel := context.WithTimeout(context.Background(), runTimeout)
 	defer cancel()
-	cmd := exec.CommandContext(ctx, bin, args...)
+	xargs := make([]string, len(args))
+	for i, a := range args {
+		xargs[i] = strings.ReplaceAll(a, "@ROOT@", sb.Root())
+	}
+	cmd := exec.CommandContext(ctx, bin, xargs...)
 	cmd.Dir = sb.Root()
 	env := []string{"HOME=" + sb.Home(), "GOMAXPROCS=1", "NO_COLOR=1", "PATH=", "TZ=UTC", "VERIF_NOW=" + fixedNow, "GOTRACEBACK=single"}
 	env = append(env, sb.Env...)
